@@ -43,7 +43,7 @@ ASSUMPTIONS = ['mixed numeric/text lists are not generated (the documentation '
                'exception" are required']
 
 NUM = [-1, 0, 2, 3, 0.1, 0.5, 2.5, None, 'MISSING']
-TXT = ['a', 'b', 'c', None]
+TXT = ['a', 'b', 'c', None, '']
 STATS = ('count', 'total', 'min', 'max', 'mean', 'variance', 'variance-n',
          'standard-deviation', 'standard-deviation-n', 'median')
 CASE_CPU_SECONDS = 120.0
@@ -80,6 +80,9 @@ def build(values, mapping):
 
 
 def cases(tier):
+    total = len(order_requests())
+    for lo in range(0, total, 100):
+        yield {'dom': 'order', 'lo': lo, 'hi': min(total, lo + 100)}
     maxn = 5 if tier == 'quick' else 7
     for dom, alpha in (('num', NUM), ('txt', TXT)):
         for n in range(1, maxn + 1):
@@ -88,6 +91,93 @@ def cases(tier):
             else:
                 for pre in itertools.product(range(len(alpha)), repeat=2):
                     yield {'dom': dom, 'n': n, 'pre': list(pre)}
+
+
+# family "order": statistics of two columns requested in every order (a
+# statistic is computed when first asked for; what was asked before, and for
+# which column, must not matter)
+ORDER_STATS = ('count', 'total', 'min', 'max', 'median', 'mean')
+ORDER_DATA = [([1, 2, 7], [10, 30, 20]), ([5, None, 3, 4], [1, 1, 1, 8]),
+              ([4], [9, 2, 7])]
+
+
+def order_requests():
+    reqs = [(st, c) for st in ORDER_STATS for c in 'xy']
+    return list(itertools.permutations(reqs, 3))
+
+
+def order_expected(stat, data):
+    data = [v for v in data if v is not None]
+    srt = sorted(data)
+    if stat == 'count':
+        return len(data)
+    if stat == 'total':
+        return sum(data)
+    if stat == 'min':
+        return srt[0]
+    if stat == 'max':
+        return srt[-1]
+    if stat == 'mean':
+        return Fraction(sum(data), len(data))
+    n = len(srt)
+    return srt[n // 2] if n % 2 else (srt[n // 2 - 1], srt[n // 2])
+
+
+def run_order(res, case):
+    from DocumentTemplate import HTML
+    reqs = order_requests()[case['lo']:case['hi']]
+    n = 0
+    for req in reqs:
+        body = '|'.join('<dtml-var %s-%s>' % r for r in req)
+        for mapping in (0, 1):
+            t = HTML('<dtml-in seq%s><dtml-if sequence-end>%s</dtml-if>'
+                     '</dtml-in>' % (' mapping' if mapping else '', body))
+            for xs, ys in ORDER_DATA:
+                m = max(len(xs), len(ys))
+                seq = []
+                for i in range(m):
+                    d = {}
+                    if i < len(xs):
+                        d['x'] = xs[i]
+                    if i < len(ys):
+                        d['y'] = ys[i]
+                    if mapping:
+                        seq.append(d)
+                    else:
+                        o = O()
+                        o.__dict__.update(d)
+                        seq.append(o)
+                n += 1
+                try:
+                    out = t(seq=seq).split('|')
+                except Exception as e:
+                    out = [repr(e)] * 3
+                for (stat, col), got in zip(req, out):
+                    exp = order_expected(stat, xs if col == 'x' else ys)
+                    try:
+                        g = parse_num(got)
+                        ok = (exp[0] <= g <= exp[1]) if isinstance(exp, tuple) \
+                            else close(g, exp)
+                    except ValueError:
+                        ok = False
+                    if not ok:
+                        res.violate(
+                            'request-order', 'order:%s-after-%s' % (
+                                stat, '+'.join(r[0] for r in
+                                               req[:req.index((stat, col))])
+                                or 'nothing'),
+                            {'requests': ['%s-%s' % r for r in req],
+                             'x': xs, 'y': ys, 'mapping': mapping,
+                             'got': got, 'expected': str(exp)},
+                            {'dom': 'order', 'lo': case['lo'] +
+                             reqs.index(req), 'hi': case['lo'] +
+                             reqs.index(req) + 1})
+                        break
+    res.evals = n
+    res.nt_count = n
+    res.outcome = 'order'
+    res.sample = {'requests': ['%s-%s' % r for r in reqs[0]],
+                  'x': ORDER_DATA[0][0], 'y': ORDER_DATA[0][1]}
 
 
 def lists(case):
@@ -217,6 +307,9 @@ def render(values, mapping):
 
 def run(case):
     res = Res()
+    if case.get('dom') == 'order':
+        run_order(res, case)
+        return res
     if case.get('kind') == 'one':
         judge(res, case['values'], case['mapping'],
               render(case['values'], case['mapping']))
